@@ -34,7 +34,7 @@ def register(R):
 
   # ---- SequenceDataSource.shard ------------------------------------------------------
   R.add(Contract(
-      f'{IO}::SequenceDataSource.shard', [P, 'C10'],
+      f'{IO}::SequenceDataSource.shard', [P, 'C10', 'C12'],
       types=dict(self='SequenceDataSource', shard_index='int', num_shards='int', offset='int'),
       ret='SequenceDataSource',
       requires=['0 <= shard_index', 'implies(num_shards >= 1, shard_index < num_shards)'],
@@ -66,7 +66,7 @@ def register(R):
   # ---- rebuilding a shard from its recorded state ------------------------------------------
   INV = ['self._start == self._shard_state.g_start', 'src_end(self) == self._shard_state.g_end']
   R.add(Contract(
-      f'{IO}::SequenceDataSource.from_state', [P, 'C10'],
+      f'{IO}::SequenceDataSource.from_state', [P, 'C10', 'C12'],
       types=dict(self='SequenceDataSource', shard_state='ShardConfig'), ret='SequenceDataSource',
       requires=['len(self.data) == root_len', 'shard_state.g_ok'],
       ensures=['result._start == shard_state.g_start', 'src_end(result) == shard_state.g_end',
